@@ -37,7 +37,36 @@ type expectation struct {
 	rootID int
 }
 
-func expect(root *ebnfref.Node) *expectation {
+// resultModes are the kinds of results the evaluator returns: whatever it returns - nil included - is the head's value.
+var resultModes = []struct {
+	name  string
+	value func(n int) any
+}{
+	{"a fresh number per call", func(n int) any { return n }},
+	{"nil for every call", func(n int) any { return nil }},
+	{"nil for every other call", func(n int) any {
+		if n%2 == 1 {
+			return nil
+		}
+		return n
+	}},
+	{"a string per call", func(n int) any { return fmt.Sprintf("v%d", n) }},
+}
+
+// render shows a value the way both sides print it.
+func render(v any) string {
+	switch x := v.(type) {
+	case nil:
+		return "nil"
+	case string:
+		return fmt.Sprintf("%q", x)
+	case int:
+		return fmt.Sprintf("#%d", x)
+	}
+	return fmt.Sprintf("?%v", v)
+}
+
+func expect(root *ebnfref.Node, mode int) *expectation {
 	x := &expectation{}
 	id := 0
 	var walk func(n *ebnfref.Node) (val string, pos posT)
@@ -60,7 +89,7 @@ func expect(root *ebnfref.Node) *expectation {
 		x.events = append(x.events, fmt.Sprintf("P %d", n.Prod))
 		x.evals = append(x.evals, fmt.Sprintf("%d(%s)", n.Prod, strings.Join(args, ", ")))
 		x.rootID = id
-		return fmt.Sprintf("#%d", id), first
+		return render(resultModes[mode].value(id)), first
 	}
 	walk(root)
 	return x
@@ -107,7 +136,7 @@ func runParse(text string, failAt int, failErr error) (events []string, err erro
 	return
 }
 
-func runEval(text string, failAt int, failErr error) (evals []string, rootVal string, err error, after int, pan any) {
+func runEval(text string, failAt int, failErr error, mode int) (evals []string, rootVal string, err error, after int, pan any) {
 	defer func() {
 		if p := recover(); p != nil {
 			pan = p
@@ -123,13 +152,7 @@ func runEval(text string, failAt int, failErr error) (evals []string, rootVal st
 		if v == nil {
 			return "<nil value>"
 		}
-		switch x := v.Val.(type) {
-		case string:
-			return fmt.Sprintf("%q@%s", x, posOf(v.Pos))
-		case int:
-			return fmt.Sprintf("#%d@%s", x, posOf(v.Pos))
-		}
-		return fmt.Sprintf("?%v@%s", v.Val, posOf(v.Pos))
+		return render(v.Val) + "@" + posOf(v.Pos).String()
 	}
 	root, err := p.ParseAndEvaluate(func(i int, rhs []*lr.Value) (any, error) {
 		n++
@@ -145,7 +168,7 @@ func runEval(text string, failAt int, failErr error) (evals []string, rootVal st
 			failed = true
 			return nil, failErr
 		}
-		return n, nil
+		return resultModes[mode].value(n), nil
 	})
 	if root != nil {
 		rootVal = show(root)
@@ -179,7 +202,7 @@ func checkText(r *ev.Run, text, family string, faults bool) {
 	if serr != nil {
 		ev.Fatal("harness text not a specification: %v\n%s", serr, text)
 	}
-	x := expect(root)
+	x := expect(root, 0)
 	r.Add("specs", 1)
 	r.Add("specs_"+family, 1)
 	r.Distinct(text)
@@ -196,22 +219,28 @@ func checkText(r *ev.Run, text, family string, faults bool) {
 	if d := diff(x.events, events); d != "" {
 		r.Report("", fmt.Sprintf("Parser.Parse callback sequence differs from the reverse rightmost derivation %s\n%s", d, text), in)
 	}
-	evals, rootVal, err, _, pan := runEval(text, 0, nil)
-	r.Add("executions", 1)
-	if pan != nil {
-		r.Add("panics_left_to_C14", 1)
-	} else if err != nil {
-		r.Report("", fmt.Sprintf("ParseAndEvaluate rejects a valid specification: %v\n%s", err, text), in)
-	} else {
-		if d := diff(x.evals, evals); d != "" {
-			r.Report("", fmt.Sprintf("ParseAndEvaluate passes other values than the body symbols' %s\n%s", d, text), in)
+	for mode := range resultModes {
+		xm := x
+		if mode > 0 {
+			xm = expect(root, mode)
 		}
-		var rootPos posT
-		if len(toks) > 0 {
-			rootPos = posT{true, toks[0].Offset, toks[0].Line, toks[0].Column}
-		}
-		if want := fmt.Sprintf("#%d@%s", x.rootID, rootPos); rootVal != want {
-			r.Report("", fmt.Sprintf("ParseAndEvaluate returns %s, expected the value of the last reduction %s\n%s", rootVal, want, text), in)
+		evals, rootVal, err, _, pan := runEval(text, 0, nil, mode)
+		r.Add("executions", 1)
+		if pan != nil {
+			r.Add("panics_left_to_C14", 1)
+		} else if err != nil {
+			r.Report("", fmt.Sprintf("ParseAndEvaluate rejects a valid specification: %v\n%s", err, text), in)
+		} else {
+			if d := diff(xm.evals, evals); d != "" {
+				r.Report("", fmt.Sprintf("ParseAndEvaluate (evaluator returning %s) passes other values than the body symbols' %s\n%s", resultModes[mode].name, d, text), in)
+			}
+			var rootPos posT
+			if len(toks) > 0 {
+				rootPos = posT{true, toks[0].Offset, toks[0].Line, toks[0].Column}
+			}
+			if want := render(resultModes[mode].value(xm.rootID)) + "@" + rootPos.String(); rootVal != want {
+				r.Report("", fmt.Sprintf("ParseAndEvaluate (evaluator returning %s) returns %s, expected the value of the last reduction %s\n%s", resultModes[mode].name, rootVal, want, text), in)
+			}
 		}
 	}
 	if !faults {
@@ -237,7 +266,7 @@ func checkText(r *ev.Run, text, family string, faults bool) {
 			}
 		}
 		for k := 1; k <= len(x.evals); k++ {
-			ev2, _, err, after, pan := runEval(text, k, id.err)
+			ev2, _, err, after, pan := runEval(text, k, id.err, 0)
 			r.Add("executions", 1)
 			r.Add("fault_executions", 1)
 			if pan != nil {
@@ -279,7 +308,7 @@ func main() {
 		r.Finish()
 	}
 	if r.Fork(16) {
-		r.Set("rule", "the specification space shared with C11 (every right-hand side up to the node bound, every declaration sequence up to the length bound with semicolon variants, bracket nestings, empty specifications), each in canonical and in one-token-per-line layout; per specification one fault-free execution per entry point plus one execution per callback index and per error identity (a plain error, io.EOF, an error wrapping io.EOF, a *parser.ParseError) with that callback failing; non-trivial = any specification; distinct by text")
+		r.Set("rule", "the specification space shared with C11 (every right-hand side up to the node bound, every declaration sequence up to the length bound with semicolon variants, bracket nestings, empty specifications), each in canonical and in one-token-per-line layout; per specification one fault-free execution per entry point and per kind of evaluator result (fresh numbers, nil always, nil every other call, strings) plus one execution per callback index and per error identity (a plain error, io.EOF, an error wrapping io.EOF, a *parser.ParseError) with that callback failing; non-trivial = any specification; distinct by text")
 		r.Set("evaluations", r.Get("executions"))
 		r.Finish()
 	}
